@@ -170,7 +170,15 @@ RESERVED = {"select", "from", "table", "where", "order", "group", "by", "as", "o
             "byteint", "integer", "datetime", "timestamp", "generated", "always", "identity", "x", "e", "n", "b", "r", "u"}
 
 
+QUOTED_WORDS = ["GROUP", "END", "DESC", "ASC", "CHECK", "CREATE", "IN", "NULL", "TRUE", "FALSE", "ORDER", "TABLE", "SELECT", "FROM", "LATERAL", "USER", "WHERE", "ALL", "ANY", "BY",
+                "CASE", "NOT", "ON", "AS", "LIMIT", "VALUES", "DEFAULT", "COLUMN", "SCHEMA", "DATE", "INT"]
+
+
 def gen_ident(rng, quoted):
+    if quoted and rng.random() < 0.3:
+        # a quoted identifier may spell any SQL word, in any case: it must stay quoted all the way to the engine
+        w = rng.choice(QUOTED_WORDS)
+        return rng.choice([w, w, w.lower(), w.capitalize()])
     if quoted:
         alpha = "abcXYZ 09_$.é\U0001F600-"
         s = "".join(rng.choice(alpha) for _ in range(rng.randint(1, 10))).strip() or "q"
@@ -226,6 +234,7 @@ def main():
                 c1 = list(cur.execute(f"select 1 as {idn}")._arrow_table.column_names)[0]  # noqa: SLF001
                 c2 = list(dcur.execute(f"select 1 as {idn}").fetchall()[0].keys())[0]
                 c3 = cur.execute(f"select {idn} from (select 2 as {idn})").description[0].name
+                val = cur.execute(f"select {idn} from (select 2 as {idn}) x").fetchall()
                 names = {r[0] for r in cur.execute("select table_name from information_schema.tables where table_schema = 'S1'").fetchall()}
                 shown = {r[1] for r in cur.execute("show tables").fetchall()}
                 cur.execute(f"create schema {idn}")
@@ -234,7 +243,7 @@ def main():
                 cur.execute("use schema s1")
                 cur.execute(f"drop schema {idn}")
                 dst = cur.execute(f"drop table {idn}").fetchall()[0][0]
-                obs.append({"status": st, "col": c1, "dictkey": c2, "desc": c3, "schema": sch, "drop": dst, "info": sorted(names), "show": sorted(shown)})
+                obs.append({"status": st, "col": c1, "dictkey": c2, "desc": c3, "schema": sch, "drop": dst, "info": sorted(names), "show": sorted(shown), "val": [list(r) for r in val]})
             except Exception as e:  # noqa: BLE001
                 obs.append({"error": f"{type(e).__name__}: {str(e)[:120]}"})
         impl.append(obs)
@@ -266,6 +275,8 @@ def main():
                 wrong.append("status")
             if name not in o["info"] or name not in o["show"]:
                 wrong.append("catalog")
+            if o["val"] != [[2]]:
+                wrong.append("val")
             if wrong:
                 report("norm", f"identifier {render_ident(variant, quoted)} is reported as {[o[k] for k in wrong if k in o] or o['status']} in {wrong}; "
                                f"the property (and the model's norm) give {name!r}", rep)
